@@ -154,6 +154,17 @@ def run(ctx):
         for incs in (["i1", "i2"], ["i2", "i1"], ["/ABS/i1", "i2"]):
             todo.append({"files": files, "root": "/w/main/f0.djinni", "include_dirs": incs,
                          "meta": {"variant": "search-order", "present": [n for n, on in zip(order, present) if on], "incs": incs}})
+    # two levels deep: the candidates are relative to the *importing* file; a copy next to an ancestor is not a candidate
+    locs2 = {"literal": "/w/x/f2.djinni", "importer-dir": "/w/main/sub/x/f2.djinni", "inc1": "/w/i1/x/f2.djinni", "inc2": "/w/i2/x/f2.djinni",
+             "ancestor-trap": "/w/main/x/f2.djinni"}
+    order2 = ["literal", "importer-dir", "inc1", "inc2", "ancestor-trap"]
+    for present in itertools.product([0, 1], repeat=5):
+        files = {"/w/main/f0.djinni": '@import "sub/f1.djinni"\nt0 = record { }', "/w/main/sub/f1.djinni": '@import "x/f2.djinni"\nt1 = record { }'}
+        for name, on in zip(order2, present):
+            if on:
+                files[locs2[name]] = f"from_{name.replace('-', '_')} = enum {{ k; }}"
+        todo.append({"files": files, "root": "/w/main/f0.djinni", "include_dirs": ["i1", "i2"],
+                     "meta": {"variant": "search-order-nested", "present": [n for n, on in zip(order2, present) if on]}})
     # a directory with the imported name shadows nothing (directories are skipped)
     todo.append({"files": {"/w/main/f0.djinni": '@import "x"\nt0 = record { }', "/w/x/inner.djinni": "z = enum { k; }", "/w/main/x": "y = enum { k; }"},
                  "root": "/w/main/f0.djinni", "include_dirs": [], "meta": {"variant": "directory-skipped"}})
@@ -234,6 +245,19 @@ def spec(meta, impl):
             want = "from_" + winner.replace("-", "_")
             if impl["kind"] != "ok" or want not in impl.get("decls", []):
                 fails.append({"key": "search-order", "what": f"candidate search order violated: expected the copy at '{winner}'", "got": impl.get("decls")})
+    elif v == "search-order-nested":
+        present = meta["present"]
+        winner = next((c for c in ["literal", "importer-dir", "inc1", "inc2"] if c in present), None)
+        if winner is None:
+            d = [d for d in impl.get("diags", []) if d["cls"] == "FileNotFoundException"] if impl["kind"] == "diags" else []
+            if not d:
+                fails.append({"key": "missing-not-reported", "what": "no candidate exists (only a copy next to an ancestor of the importer) and no file-not-found is reported", "got": impl.get("decls")})
+            elif not d[0]["file"].endswith("sub/f1.djinni"):
+                fails.append({"key": "missing-wrong-place", "what": "file-not-found is not reported at the directive of the importing file"})
+        else:
+            want = "from_" + winner.replace("-", "_")
+            if impl["kind"] != "ok" or want not in impl.get("decls", []):
+                fails.append({"key": "search-order", "what": f"candidate search order violated for a nested importer: expected the copy at '{winner}'", "got": impl.get("decls")})
     return fails
 
 
